@@ -410,7 +410,7 @@ class Jacobian(Derivative):
 
     @staticmethod
     def _expand_steps(steps, x_i, fxi):
-        if np.size(fxi) == 1:
+        if np.ndim(fxi) == 0:
             return steps
         n = len(x_i)
         one = np.ones_like(fxi)
